@@ -17,6 +17,9 @@ pub struct Case {
     /// history diversity: a sibling site that differs only in its GMT offset is interleaved date by date
     #[serde(default)]
     pub alt_gmt: Option<X>,
+    /// explicit weather passed to every call of this case (None = absent)
+    #[serde(default)]
+    pub weather: Option<(X, X)>,
 }
 
 const REACH: i32 = 400;
@@ -44,13 +47,13 @@ fn check_sites(ctx: &Ctx, st: &mut Stats, c0: &Case, sites: &[Site]) {
     for s in sites {
         let mut t = Vec::with_capacity(n as usize);
         for i in 0..n {
-            t.push(call(st, &p0, s.loc(), from_ce(lo + i), None).ok());
+            t.push(call(st, &p0, s.loc(), from_ce(lo + i), c0.weather.map(|(a, b)| weather(a.0, b.0))).ok());
         }
         tables.push(t);
     }
     for k in 0..c0.len as i32 {
         for (si, s) in sites.iter().enumerate() {
-            let c = Case { site: *s, method: c0.method, start: c0.start.clone(), len: c0.len, alt_gmt: None };
+            let c = Case { site: *s, method: c0.method, start: c0.start.clone(), len: c0.len, alt_gmt: None, weather: c0.weather };
             check_date(ctx, st, &c, &p0, &tables[si], start, k);
         }
     }
@@ -70,6 +73,7 @@ fn check_date(ctx: &Ctx, st: &mut Stats, c: &Case, p0: &Params, table: &[Option<
             start: d2s(date),
             len: 1,
             alt_gmt: None,
+            weather: c.weather,
         };
         st.begin_case(ctx, &one);
         let Some(base) = table[idx as usize].clone() else {
@@ -98,7 +102,7 @@ fn check_date(ctx: &Ctx, st: &mut Stats, c: &Case, p0: &Params, table: &[Option<
             }
             let mut p = p0.clone();
             p.extreme_latitude_method = policy(pol, None);
-            let res = match call(st, &p, l, date, None) {
+            let res = match call(st, &p, l, date, c.weather.map(|(a, b)| weather(a.0, b.0))) {
                 Ok(r) => r,
                 Err(pm) => {
                     if needed {
@@ -194,13 +198,20 @@ pub fn run(ctx: &Ctx, st: &mut Stats) {
             start: d2s(ymd(year, 1, 1)),
             len,
             alt_gmt: alt,
+            // a quarter of the site-years pass explicit (non-standard) weather to every call
+            weather: if i % 4 == 1 {
+                let w = gen::any_weather(&mut r);
+                Some((X(f64::from(w.pressure)), X(f64::from(w.temperature))))
+            } else {
+                None
+            },
         };
         st.sample(|| json!({"site_year": c, "note": "every day of the year is checked under both nearest-good-day policies"}));
         check(ctx, st, &c);
         if early.len() < 6 {
             // remembered for the long-delay re-check at the end of the shard: mid-summer dates of this site-year
             let mid = if site.lat.0 > 0.0 { ymd(year, 6, 21) } else { ymd(year, 12, 21) };
-            early.push(Case { site, method, start: d2s(from_ce(ce(mid) - 2)), len: 5, alt_gmt: None });
+            early.push(Case { site, method, start: d2s(from_ce(ce(mid) - 2)), len: 5, alt_gmt: None, weather: None });
         }
         st.count("site_years");
         st.count(if site.lat.0 > 0.0 { "site_years.north" } else { "site_years.south" });
@@ -247,7 +258,7 @@ pub fn run(ctx: &Ctx, st: &mut Stats) {
             st.count("boundary_windows.transition_below_48");
             continue;
         }
-        let c = Case { site: Site::new(a, lon, 0.0, gmt), method, start: d2s(from_ce(ce(date) - 3)), len: 7, alt_gmt: None };
+        let c = Case { site: Site::new(a, lon, 0.0, gmt), method, start: d2s(from_ce(ce(date) - 3)), len: 7, alt_gmt: None, weather: None };
         check(ctx, st, &c);
         st.count("boundary_windows(grazing good day, week around it)");
     }
